@@ -157,13 +157,16 @@ Crossbeam<'a, ItemType, BUFFER_SIZE, MAX_STREAMS> {
     #[inline(always)]
     fn send_derived(&self, arc_item: &Arc<ItemType>) -> bool {
         for stream_id in self.streams_manager.used_streams() {
+            #[cfg(feature = "verif")] crate::verif::point(crate::verif::MULTI_FANOUT_BEFORE_ENTRY);
             if *stream_id == u32::MAX {
                 break
             }
             let sender = unsafe { self.senders.get_unchecked(*stream_id as usize) };
             match sender.len() {
                 len_before if len_before <= 2 => {
+                    #[cfg(feature = "verif")] crate::verif::point(crate::verif::MULTI_XB_BETWEEN_LEN_AND_SEND);
                     let _ = sender.try_send(arc_item.clone());
+                    #[cfg(feature = "verif")] crate::verif::point(crate::verif::MULTI_FANOUT_BEFORE_WAKE);
                     self.streams_manager.wake_stream(*stream_id);
                 },
                 _ => while sender.try_send(arc_item.clone()).is_err() {
